@@ -3,7 +3,7 @@ from . import modecommon, C03
 from ..facts import Module
 
 LEVEL = "other"
-RM = {"SMALLIO": "R-C08-SMALL", "SMALLMEM": "R-C08-SMALL", "RT": "R-C08-PASS", "LEN": "R-C08-LEN", "ADVANCE": "R-C08-LOCKSTEP", "TAGPOS": "R-C08-END", "INPLACE": "R-C08-INPLACE", "INRANGE": "R-C08-READS"}
+RM = {"KEYINJ": "R-C08-KEY", "SMALLIO": "R-C08-SMALL", "SMALLMEM": "R-C08-SMALL", "RT": "R-C08-PASS", "LEN": "R-C08-LEN", "ADVANCE": "R-C08-LOCKSTEP", "TAGPOS": "R-C08-END", "INPLACE": "R-C08-INPLACE", "INRANGE": "R-C08-READS"}
 PAIR = {"MODE": "R-C08-PASS", "PREFIX": "R-C08-PASS1", "NONCE2": "R-C08-NONCE", "SETUPFN": "R-C08-SETUPFN", "SETUPSENS": "R-C08-SETUPFN"}
 
 
@@ -30,6 +30,8 @@ def run(ck, build):
     if modecommon.nostate_rule(ck, build, "R-C08-NOSTATE", ("siv",), "the six SIV entry points"):
         return
     mod, fns, n = modecommon.run_mode(ck, build, ("siv",), RM, helper_fns=False, floor_obl=100)
+    ck.rule("R-C08-KEY", "premise of 'a modified key is rejected': in every SIV function the key words the cipher runs on are an injective function of the key bytes (rank of the GF(2)-linear "
+            "map): a key byte dropped or read twice alike in both directions keeps every relational rule")
     ck.rule("R-C08-ABSORB", "premise of 'modified bodies and associated data are rejected': the shared absorb function (associated data, and the plaintext in the authentication pass) leaves a "
             "state that is an injective function of the bytes of every segment (rank of the GF(2)-linear map the bytes enter by, or a concrete pair of inputs absorbed alike) - per path "
             "class and for every size 0..24 as straight paths; a deviation made alike in both directions is invisible to the relational rules")
